@@ -218,6 +218,56 @@ for _u, _h, _n in ((True, True, None), (True, True, 1), (True, True, 2), (False,
 
 
 # ---------------------------------------------------------------------------------------------
+# what is presented to the client: certificate, key and chain of the entry the store returned (TCP and QUIC twins)
+
+
+@scenario("quic_start_client", functions=[T + ":TlsConfig.quic_start_client"])
+def s_quic_start_client(vc):
+    """QUIC twin of tls_start_client: the settings carry the entry's certificate and key, and the chain sent along is the
+    entry's WHOLE chain (for generated entries chain_certs[0] is the issuing CA: dropping it breaks verification with an
+    intermediate CA), followed by the upstream certificates only if add_upstream_certs_to_client_chain is set."""
+    n_chain = vc.case("chain_certs", [1, 2, 3])
+    extra_opt = vc.case("add_upstream_certs_to_client_chain", [False, True])
+    preset = vc.case("addon_provided_settings", [False, True])
+    set_ctx_options(vc, mk_options(vc, ciphers_client=None, add_upstream_certs_to_client_chain=extra_opt))
+    mk = lambda tag: vc.new(CE + ":Cert", _cert=vc.new("props.tlsstub:SignedGhost", builder=tag))
+    leaf = mk("leaf")
+    chain = [mk(f"chain{i}") for i in range(n_chain)]
+    upstream = [mk("upstream0"), mk("upstream1")]
+    entry = vc.new(CE + ":CertStoreEntry", cert=leaf, privatekey="ENTRY-KEY", chain_file=None, chain_certs=vc.list(chain))
+    asked = []
+
+    def get_cert(v, self_, conn_context):
+        asked.append(conn_context)
+        return entry
+
+    vc.summary(T + ":TlsConfig.get_cert", get_cert)
+    client = mk_client(vc, alpn=None, alpn_offers=vc.list([b"h3"]), cipher_list=vc.list([]))
+    server = mk_server(vc, certificate_list=vc.list(upstream), alpn=None)
+    ctx = mk_context(vc, client, server)
+    old_settings = vc.new("mitmproxy.proxy.layers.quic._hooks:QuicTlsSettings", alpn_protocols=None, certificate=None, certificate_chain=vc.list([]), certificate_private_key=None,
+                          cipher_suites=None, ca_path=None, ca_file=None, verify_mode=None) if preset else None
+    data = vc.new("mitmproxy.proxy.layers.quic._hooks:QuicTlsData", conn=client, context=ctx, ssl_conn=None, is_dtls=False, settings=old_settings)
+    addon = vc.new(T + ":TlsConfig")
+    out = vc.call(T + ":TlsConfig.quic_start_client", addon, data)
+    vc.ensure("no_exception", out.ok)
+    if not out.ok:
+        return
+    if preset:
+        vc.ensure("preset.left_alone", data.settings is old_settings and len(asked) == 0)
+        return
+    st = data.settings
+    vc.ensure("certificate_for_this_connection_context", len(asked) == 1 and asked[0] is ctx)
+    vc.ensure("settings.leaf_certificate_and_key_of_the_entry", st.certificate is leaf._cert and vc.truthy(vc.eq(st.certificate_private_key, "ENTRY-KEY")))
+    want = [c._cert for c in chain] + ([c._cert for c in upstream] if extra_opt else [])
+    got = st.certificate_chain.items if vc.mode == "sym" else st.certificate_chain
+    vc.ensure("settings.chain_is_the_entrys_whole_chain_then_upstream", len(got) == len(want) and all(g is w for g, w in zip(got, want)))
+    vc.ensure("settings.issuing_ca_first_in_chain", len(got) >= 1 and got[0] is chain[0]._cert)
+    al = st.alpn_protocols.items if vc.mode == "sym" else st.alpn_protocols
+    vc.ensure("settings.alpn_from_client_offers", len(al) == 1 and vc.truthy(vc.eq(al[0], "h3")))
+
+
+# ---------------------------------------------------------------------------------------------
 # certs.dummy_cert as an effect trace on the certificate builder
 
 
@@ -457,7 +507,7 @@ def bounded(tier, seed):
               "trailing dot, mixed case, underscore, IPv4, IPv6, none => local address) x upstream certificates (none, CN only, CN+SANs, wildcard SAN, organization, CRL DP, "
               "free-text CN, IP SAN, 64-char CN, CN the IDNA codec rejects) x server address (none, same, other, IP) x upstream_cert on/off x default CA / CA chain with intermediate; "
               "checked: issuer, validity now, EKU serverAuth, SAN set within the allowed identities and containing the requested one, strict verification for the requested identity with "
-              "cryptography.x509.verification, and (subset) a full in-memory handshake with Python ssl in X509_STRICT mode; distinct = case tuple; non-trivial = upstream certificate present or non-plain SNI")
+              "cryptography.x509.verification, the QUIC settings (quic_start_client: same leaf, whole chain, verifies from the trust anchor with exactly the presented certificates), and (subset) a full in-memory handshake with Python ssl in X509_STRICT mode; distinct = case tuple; non-trivial = upstream certificate present or non-plain SNI")
     b.bound = "13 SNI forms x 10 upstream shapes x 4 address forms x 2 option values (all 1040 combinations with the default CA; with the CA chain: all in thorough, a covering subset of ~190 in quick); strict handshakes: 25 (quick) / 400 (thorough) per CA"
 
     up_key, up_ca = certs.create_ca("upstream", "upstream CA", 2048)
@@ -508,6 +558,7 @@ def bounded(tier, seed):
                     if ca_kind == "chain":
                         cases = [c for c in cases if c in keep]
                 n_hs = 0
+                n_quic = 0
                 for sni, uname, addr, opt in cases:
                     tctx.configure(ta, upstream_cert=opt)
                     local = "127.0.0.1" if (sni is None or ":" not in str(sni)) else "::1"
@@ -568,6 +619,24 @@ def bounded(tier, seed):
                         PolicyBuilder().store(Store([trust])).time(now).build_server_verifier(subject).verify(leaf, inter)
                     except VerificationError as e:
                         b.fail("leaf.verifies_strict.cryptography", inp, str(e)[:300])
+                    # what a QUIC client is shown (quic_start_client): same leaf, the entry's whole chain, and it verifies from the trust
+                    # anchor alone with exactly the certificates presented (matters with an intermediate CA in mitmproxy-ca.pem)
+                    if n_quic < (60 if quick else 10 ** 6):
+                        n_quic += 1
+                        from mitmproxy.proxy.layers import quic as _quic
+                        qd = _quic.QuicTlsData(ctx.client, context=ctx)
+                        try:
+                            ta.quic_start_client(qd)
+                            st = qd.settings
+                            if st.certificate != leaf:
+                                b.fail("quic.same_leaf_as_tcp", inp, "different certificate")
+                            if list(st.certificate_chain) != [c_.to_cryptography() for c_ in entry.chain_certs]:
+                                b.fail("quic.presents_the_entrys_whole_chain", inp, f"{len(st.certificate_chain)} certificates presented, entry chain has {len(entry.chain_certs)}")
+                            PolicyBuilder().store(Store([trust])).time(now).build_server_verifier(subject).verify(st.certificate, list(st.certificate_chain))
+                        except VerificationError as e:
+                            b.fail("quic.presented_chain_verifies_strict", inp, str(e)[:300])
+                        except Exception as e:
+                            b.fail("quic.total", inp, f"{type(e).__name__}: {e}")
                     # full handshake with a strict OpenSSL client for a subset (DNS identities only: clients do not send IP literals as SNI)
                     if isinstance(subject, x509.DNSName) and sni is not None and (n_hs < (25 if quick else 400)) and (not quick or addr is None):
                         n_hs += 1
